@@ -416,7 +416,7 @@ func check(args []string) int {
 		// confirm in a fresh process
 		code, _ := 0, ""
 		tmp, _ := os.CreateTemp(scratch, "replay-out-")
-		code, stderr := runWorker(worker, map[string]string{"VERIF_PROP": id, "VERIF_REPLAY": viol.ReplayPath}, tmp)
+		code, stderr := runWorker(worker, map[string]string{"VERIF_PROP": id, "VERIF_REPLAY": viol.ReplayPath, "VERIF_KNOWN": knownPath}, tmp)
 		tmp.Close()
 		ob, _ := os.ReadFile(tmp.Name())
 		var vf struct {
@@ -449,7 +449,7 @@ func check(args []string) int {
 		path := filepath.Join(replayDir, fmt.Sprintf("%s-%d-%d-emergency.json", id, seed, w))
 		os.WriteFile(path, eb, 0o644)
 		tmp, _ := os.CreateTemp(scratch, "emerg-out-")
-		code, stderr := runWorker(worker, map[string]string{"VERIF_PROP": id, "VERIF_TIER": *tier, "VERIF_REPLAY": path}, tmp)
+		code, stderr := runWorker(worker, map[string]string{"VERIF_PROP": id, "VERIF_TIER": *tier, "VERIF_REPLAY": path, "VERIF_KNOWN": knownPath}, tmp)
 		tmp.Close()
 		ob, _ := os.ReadFile(tmp.Name())
 		if code == 4 && strings.Contains(string(ob), "REPLAY fingerprint="+ef.Fingerprint+" ") {
@@ -646,7 +646,8 @@ func replay(args []string) int {
 	}
 	scratch, worker := build()
 	defer os.RemoveAll(scratch)
-	env := map[string]string{"VERIF_PROP": rf.Property, "VERIF_REPLAY": path}
+	env := map[string]string{"VERIF_PROP": rf.Property, "VERIF_REPLAY": path,
+		"VERIF_KNOWN": envOr("VERIF_KNOWN_FILE", filepath.Join(verifDir, "known_findings.json"))}
 	if verbose {
 		env["VERIF_VERBOSE"] = "1"
 	}
